@@ -66,7 +66,7 @@ add_axis = function(
     'forall(Int, lambda i: implies(len(self.names) <= i and i < len(names), names[i] is None))',
   ]},
   while_decreases={0: 'index - len(names)'},
-  bindings=B, props=('C19',), enum_bound=2,
+  bindings=B, props=('C19', 'C06'), enum_bound=2,
   native=NH('flax.core.meta', 'Partitioned.add_axis'))
 add_axis.locals = {'names': SeqOf(AxisName)}
 
@@ -80,7 +80,7 @@ remove_axis = function(
     'forall(Int, lambda i: implies(index <= i and i < len(result.names), result.names[i] == self.names[i + 1]))',
     'result.value == self.value and result.mesh == self.mesh',
   ],
-  bindings=B, props=('C19',), enum_bound=2,
+  bindings=B, props=('C19', 'C06'), enum_bound=2,
   native=NH('flax.core.meta', 'Partitioned.remove_axis'))
 remove_axis.locals = {'names': SeqOf(AxisName)}
 
